@@ -38,7 +38,8 @@ def ic_setup(ctx):
     existing = []
     for i in range(n_existing):
         a_on = ["parse", "instantiate"][ctx.choose(2, f"existing[{i}].apply_on")]
-        existing.append(Rec("ActionLink", attrs={"target": (z3.String(f"t{i}"), None), "source": [(z3.String(f"s{i}"), None)], "apply_on": a_on}))
+        two = ctx.choose(2, f"existing[{i}].two-sources") == 1  # a link computed from several sources: every one of them is a source
+        existing.append(Rec("ActionLink", attrs={"target": (z3.String(f"t{i}"), None), "source": [(z3.String(f"s{i}"), None)] + ([(z3.String(f"s{i}b"), None)] if two else []), "apply_on": a_on}))
     src_kind = ctx.choose(3, "source-kind")  # a single string, a 1-tuple, a 2-tuple
     srcs = [z3.String("src0"), z3.String("src1")]
     source = srcs[0] if src_kind == 0 else tuple(srcs[:src_kind])
@@ -56,10 +57,10 @@ def ic_post(ctx, st, result):
     ctx.oblige("post", "several-sources-need-a-compute-function", d["has_fn"] or len(d["sources"]) == 1)
     if d["apply_on"] == "parse":
         tg = [a.attrs["target"][0] for a in d["existing"]]
-        parse_src = [a.attrs["source"][0][0] for a in d["existing"] if a.attrs["apply_on"] == "parse"]
+        parse_src = [x[0] for a in d["existing"] if a.attrs["apply_on"] == "parse" for x in a.attrs["source"]]
         ctx.oblige("post", "target-is-not-already-a-target", z3.And([d["target"] != t for t in tg]) if tg else True)
         ctx.oblige("post", "no-source-is-the-target-of-another-link(no chains)", z3.And([s != t for s in d["sources"] for t in tg]) if tg else True)
-        ctx.oblige("post", "target-is-not-the-source-of-a-parse-link", z3.And([d["target"] != s for s in parse_src]) if parse_src else True)
+        ctx.oblige("post", "target-is-not-a-source(any of them)-of-a-parse-link", z3.And([d["target"] != s for s in parse_src]) if parse_src else True)
 
 
 def ic_raises(ctx, st, exc):
@@ -69,7 +70,7 @@ def ic_raises(ctx, st, exc):
     reasons = [d["apply_on"] not in ("parse", "instantiate"), (not d["has_fn"]) and len(d["sources"]) > 1]
     if d["apply_on"] == "parse":
         tg = [a.attrs["target"][0] for a in d["existing"]]
-        parse_src = [a.attrs["source"][0][0] for a in d["existing"] if a.attrs["apply_on"] == "parse"]
+        parse_src = [x[0] for a in d["existing"] if a.attrs["apply_on"] == "parse" for x in a.attrs["source"]]
         reasons += [d["target"] == t for t in tg] + [s == t for s in d["sources"] for t in tg] + [d["target"] == s for s in parse_src]
     concrete = [r for r in reasons if isinstance(r, bool)]
     symbolic = [r for r in reasons if not isinstance(r, bool)]
